@@ -2,7 +2,7 @@
    Only statements closed by [exact]; proofs live in proofs/ReadPathProofs.v.
    The model (model/ReadPath.v) is of the tree with fixes/C03-flush-window-read-order.patch
    (and fixes/C04-find-index-entry-floor.patch) applied. *)
-From KS Require Import lib.Base model.ReadPath proofs.ReadPathProofs.
+From KS Require Import lib.Base model.ReadPath model.ReadRestore proofs.ReadPathProofs proofs.ReadRestoreProofs.
 Open Scope Z_scope.
 
 (* (1) For every history of appends / prepareFlush / upload success / upload failure
@@ -42,6 +42,23 @@ Theorem C03_paths_agree : forall iv rq start ops o max,
   read l true o max = read l false o max.
 Proof. exact read_paths_agree. Qed.
 Print Assumptions C03_paths_agree.
+
+(* (4) The same across restarts: histories may contain, anywhere, a restart whose
+   RestoreFromS3 succeeded (fresh PartitionLog from any metadata-store offset, the
+   committed segments re-registered from S3, buffer and in-flight batches lost). *)
+Theorem C03_read_sound_restart : forall iv rq start xs cached o max d,
+  Forall valid_xop xs ->
+  let l := xrun (init_log iv rq start) xs in
+  read l cached o max = ROk d -> is_run (live l) o d.
+Proof. exact read_sound_restart. Qed.
+Print Assumptions C03_read_sound_restart.
+
+Theorem C03_paths_agree_restart : forall iv rq start xs o max,
+  Forall valid_xop xs ->
+  let l := xrun (init_log iv rq start) xs in
+  read l true o max = read l false o max.
+Proof. exact read_paths_agree_restart. Qed.
+Print Assumptions C03_paths_agree_restart.
 
 (* header / footer lengths the slicing relies on *)
 Theorem C03_segment_layout : forall b c t crc last,
